@@ -6,6 +6,7 @@
    {"fn":"stage","variant":"found"|"pipeline"|"h"|"none","cfg":{"isCase","isRe","indexed","ci"},
     "keyed":b,"groups":[[cand]],"others":[cand],"bypass":[cand],"pats":[s],"drop":[id]}
         cand = [id, key|null];  "drop" = ids the filter callback rejects
+        "base" = ids of the implementation's unfiltered result (the property's base set)
         -> {"out":[id],"spec":[id],"hyp":b}
            out  = model stage output (after the callback),
            spec = filterSpec over the de-duplicated candidates (after the callback),
@@ -71,6 +72,10 @@ def handle (st : Unit) (j : Json) : Except String (Unit × Json) := do
         | .ok a => (natList a).toOption.getD []
         | .error _ => []
       let f : Cand → Bool := fun e => !drop.contains e.id
+      -- the property's base set: the ids of the implementation's own unfiltered result
+      let inBase : Cand → Bool := match getArr j "base" with
+        | .ok a => let b := (natList a).toOption.getD []; fun e => b.contains e.id
+        | .error _ => fun _ => true
       let (out, base, hyp) ← match variant with
         | "found" => pure (stageFound c others pats, others, decide (Spec.HypFound others pats))
         | "pipeline" =>
@@ -89,6 +94,7 @@ def handle (st : Unit) (j : Json) : Except String (Unit × Json) := do
             Spec.filterSpec c g pats ++
               Spec.filterSpec { c with ci := false } ((dedup others).filter (fun e => !g.contains e)) pats
         | _ => Spec.filterSpec c base pats
+      let spec := spec.filter inBase
       pure (st, Json.mkObj [("out", ids (applyFilter f out)), ("spec", ids (applyFilter f spec)),
                             ("hyp", Json.bool hyp)])
   | _ => throw s!"unknown fn {fn}"
